@@ -208,6 +208,7 @@ K_REFSITE_MOM = ("transmission(): refsite actuator moment subtracts the Jacobian
                  "site point carried by the reference body (C engine fix 5b2a1c9b9)")
 K_STATIC_ACC = ("acceleration-stage sensors on a body welded to the world: the C engine (tree and 3.13 wheel) returns 0 because cacc is "
                 "not computed for static bodies; MJX returns the gravity-consistent value (C-side root cause, cf. C28)")
+K_MUSCLEVEL = "implicitfast: deriv_smooth_vel has no velocity derivative for muscle gains (the C engine uses mjd_muscleGain_vel)"
 K_NOTOPT = "qacc is not the minimiser of the C engine's constraint problem although MJX's own solver reports a stationary point"
 
 
@@ -275,11 +276,13 @@ def compare_state(J, item, mt, C, X, i, st, xtype_static, part, stats):
     if xJ.shape[0] != len(xtype_static):
         put("efc", "efc row count != efc_type", float("inf"))
     else:
-        act = np.any(xJ != 0, axis=1) if xJ.size else np.zeros(0, bool)
+        # rows whose Jacobian vanishes (inactive MJX slots; weld/connect directions without any dof) carry no force into
+        # the dynamics; "vanishes" = below 1e-13 so that an exact 0 on one side and a rounding residue on the other agree
+        act = np.any(np.abs(xJ) > 1e-13, axis=1) if xJ.size else np.zeros(0, bool)
         xi = np.nonzero(act)[0]
         xf = efc_features(xJ[xi], X["efc_pos"][i][xi], X["efc_margin"][i][xi], X["efc_frictionloss"][i][xi], X["efc_D"][i][xi])
         cf = efc_features(C["efc_J"], C["efc_pos"], C["efc_margin"], C["efc_frictionloss"], C["efc_D"])
-        cact = [k for k in range(nefc_c) if np.any(C["efc_J"][k] != 0)]
+        cact = [k for k in range(nefc_c) if np.any(np.abs(C["efc_J"][k]) > 1e-13)]
         pairs, uc, ux, worst = match_rows([int(C["efc_type"][k]) for k in cact], [cf[k] for k in cact],
                                           [int(xtype_static[k]) for k in xi], xf, efc_tol(iterative))
         stats["efc_rows"] = max(stats.get("efc_rows", 0.0), worst)
@@ -372,10 +375,15 @@ def compare_state(J, item, mt, C, X, i, st, xtype_static, part, stats):
                 key = None
                 if f in ("next_qpos", "next_qvel"):
                     key = K_FORCERANGE if sat else (K_XTREE if cross else (K_FREEGYRO if gyro else None))
+                    if key is None and int(mt.opt.integrator) == 3 and mt.nu and np.any(np.array(mt.actuator_gaintype) == 2):
+                        key = K_MUSCLEVEL
                     dfl = int(mt.opt.disableflags)
                     if key is None and int(mt.opt.integrator) == 1 and mt.neq and np.any(np.isin(np.array(mt.eq_type), (0, 1))) \
                             and not (dfl & ((1 << 0) | (1 << 1))):
                         key = K_JDOTV       # RK4: the later stages are evaluated at non-zero velocity
+                    if key is None and int(mt.opt.integrator) == 1 and mt.ntendon and np.any(np.array(mt.tendon_armature) > 0) \
+                            and np.any(np.array(mt.jnt_type) == 0) and np.any(np.array(mt.wrap_type) == 3):
+                        key = K_JACDOT      # RK4: the later stages are evaluated at non-zero velocity
                     if key is None and int(mt.opt.integrator) == 0 and (dfl & 64) and not (dfl & (1 << 15)) and np.any(np.array(mt.dof_damping) > 0):
                         key = K_EULERDAMP
                 put("next", f, e, key)
@@ -472,6 +480,9 @@ def check_model(J, lib, part, item, cap):
                     key = K_ACTEARLY
                 if key is None and fld == "actuator_velocity" and int(mt.opt.disableflags) & (1 << 11):
                     key = K_ACTVEL
+                if item.get("iterative") and first not in ("pos", "cam", "pos2"):
+                    # SDF / convex collision functions are approximations: one key per geom-pair scene
+                    key = "approximate collision function: contacts of %s deviate from the C engine beyond 2e-3+2e-2*scale" % fam
                 if key is None and fam.startswith("gate["):
                     key = "feature accepted by put_model but not reproduced: %s" % fam
                 if key is None and first in ("solve", "next") and int(mt.opt.noslip_iterations) > 0:
